@@ -571,7 +571,17 @@ class Block:
         """Given a dictionary for an experiment that maps all non-implied factors to their levels,
         adds level values for implied factors"""
         n = len(list(results.values())[0])
-        for f in self.design:
+        # An implied factor can depend on another implied factor that is listed
+        # later in the design, so visit each factor after the ones it depends on
+        pending = list(self.design)
+        sources_first = []
+        while pending:
+            for f in pending:
+                if not any(df in pending for l in f.levels if isinstance(l, DerivedLevel) for df in l.window.factors):
+                    break
+            pending.remove(f)
+            sources_first.append(f)
+        for f in sources_first:
             if f not in self.act_design:
                 sustain_count = self.sustain_count(f)
                 vals = []
